@@ -632,6 +632,11 @@ def monitor(ck, programs, rng, cap, tag):
         if not v0[0]:
             accepted.append((p, info['sites']))
         vs = rewrites.variants(p, p['module'], info['sites'], rng.fork(), cap, skips)
+        if p.get('annotated_twin'):
+            # supplied by the generator: lambda parameters (and one call's type arguments) written out with the types they have by
+            # construction, not with what the checker under test inferred
+            vs.append({'kind': 'annot-by-construction', 'site': {'kind': 'helper-lambdas-annotated-by-construction'},
+                       'sources': dict(p['annotated_twin']), 'entry': p['entry'], 'module': p['module']})
         if p.get('renamed_apart'):
             # supplied by the generator, which knows the binding structure it built: the same program with every local
             # binder renamed apart. Unlike the AST-driven rename it does not depend on what the analysis under test
